@@ -18,11 +18,13 @@ theorem find?_ext {α} (p q : α → Bool) (l : List α) (h : ∀ a ∈ l, p a =
 documented one. -/
 theorem getAttr_eq_declared (attrs : List Attr) (n : String) (h : UnqAttrs attrs) :
     getAttr attrs n = declared attrs n := by
+  have hf : attrs.find? (fun a => a.named n)
+      = attrs.find? (fun a => decide (a.name = n ∧ a.isDefault = false ∧ a.backEnd = "")) := by
+    apply find?_ext
+    intro a ha
+    have hq : a.backEnd = "" := h a ha
+    simp [Attr.named, hq]
   unfold getAttr declared
-  congr 1
-  apply find?_ext
-  intro a ha
-  have hq : a.backEnd = "" := h a ha
-  simp [Attr.named, hq]
+  rw [hf]
 
 end Emboss.Constraints
